@@ -612,6 +612,37 @@ def run(ctx):
             if abs(va - vb) > ref * (TOL * deg + Fraction(1, 10**7)) + wa + wb + w_operands:
                 ctx.violation(f"C14:{opname}:result-depends-on-operand-unit:{what}",
                               f"{left!r} {opname} {right!r} vs re-expressed {right2!r}: SI {what} {core.sf(va)!r} vs {core.sf(vb)!r}", state["case"])
+    # float and int readings near the upper end of the float range: the squares of the propagation terms leave the range
+    # although the result does not.  Refusing with OverflowError is an answer (as above); a number must be the right
+    # one - whatever decimal context the program has installed (float readings have nothing to do with it)
+    import decimal
+    saved_context = decimal.getcontext().copy()
+    Um = m.Unit._by_name
+    for _ in range(240 if ctx.tier == "quick" else 6000):
+        ea = rng.randint(60, 200)
+        eb = rng.randint(155 - ea, 300 - ea) if rng.random() < 0.8 else rng.randint(-40, 40)
+        x = rng.uniform(1, 9.999) * 10.0 ** ea * rng.choice([1, 1, -1])
+        y = rng.uniform(1, 9.999) * 10.0 ** eb
+        sx, sy = abs(x) * rng.uniform(1e-5, 0.2), abs(y) * rng.uniform(1e-5, 0.2)
+        if rng.random() < 0.2:
+            x, sx = int(x), int(sx)
+        opname = rng.choice(["mul", "truediv"])
+        if opname == "truediv":
+            y, sy = 1 / y, sy / y / y
+        A, B = Mt(Q(x, Um["meter"]), sx), Mt(Q(y, Um["second"]), sy)
+        prec = rng.choice([4, 5, 6, 9, 28])
+        state["case"] = {"op": opname, "left": repr(A), "right": repr(B), "decimal_context_precision": prec}
+        ctx.count("evaluations")
+        ctx.count("big_readings/asked")
+        decimal.setcontext(decimal.Context(prec=prec))
+        try:
+            r = A * B if opname == "mul" else A / B
+            ctx.count("big_readings/answered")
+            ctx.distinct(("big-terms", opname, prec, type(x).__name__))
+        except Exception as ex:
+            ctx.count(f"big_readings/raised/{type(ex).__name__}")
+        finally:
+            decimal.setcontext(saved_context)
     for e in ctx.known:
         if e.get("status") == "known":
             ctx.witness(e["key"], ctx.known_hits.get(e["key"], 0) > 0)
